@@ -7,6 +7,12 @@ VARIANTS = {
     "fr": {"tags": "verif,verif_fr"},
     "fr_noadx": {"tags": "verif,verif_fr,noadx"},
     "race": {"tags": "verif,verif_elem", "race": True},
+    # the same harness built for a 32-bit platform (GOARCH=386 runs on this host): 32-bit int / uint, and the portable
+    # (non-assembly) field arithmetic of go-ipa and gnark-crypto for real
+    "elem386": {"tags": "verif,verif_elem", "goarch": "386"},
+    "ipa386": {"tags": "verif,verif_elem,verif_ipa", "goarch": "386"},
+    "msm386": {"tags": "verif,verif_elem,verif_msm", "goarch": "386"},
+    "fr386": {"tags": "verif,verif_fr", "goarch": "386"},
 }
 
 NOISE_NOTE = (" About half of the cases are evaluated after 'history noise': a short seed-derived burst of unrelated, legal API calls "
@@ -422,3 +428,12 @@ HOOK_COMMITS = ["1c7f22f"]
 NOT_CLAIMED = {}
 NOTES = ("Driver: ./check <ID> quick|thorough|--replay <file>; exit 0 held / 1 violation / 2 inconclusive. "
          "Fix commits in /repo: 18e7710 (C16/C13), 2b5696f (C06), 531f665 (C10), 1b87bca (C08); see known_findings.json and DESIGN.md section 6.")
+
+# Every check except C12 (the race detector needs a 64-bit platform) runs ONE additional process built for GOARCH=386: it takes
+# over the deterministic share of one shard (rotating with the seed) and a quarter / a tenth of a shard's drawn cases.
+for _pid, _p in PROPS.items():
+    if _pid == "C12":
+        continue
+    _v = _p["variant"] + "386"
+    _p["quick"]["extra"] = [{"variant": _v, "env": {"VERIF_SCALE": 0.25}}]
+    _p["thorough"]["extra"] = [{"variant": _v, "env": {"VERIF_SCALE": 0.1}}]
